@@ -58,6 +58,9 @@ type safeSubmissionState struct {
 
 	results map[string]*submissionResult
 	cancels map[string]context.CancelFunc
+	// inFlight holds, for every Log whose submission is under way, a channel
+	// that is closed once its result has been processed.
+	inFlight map[string]chan struct{}
 }
 
 func newSafeSubmissionState(groups ctpolicy.LogPolicyData) *safeSubmissionState {
@@ -69,6 +72,7 @@ func newSafeSubmissionState(groups ctpolicy.LogPolicyData) *safeSubmissionState 
 	}
 	s.results = make(map[string]*submissionResult)
 	s.cancels = make(map[string]context.CancelFunc)
+	s.inFlight = make(map[string]chan struct{})
 	return &s
 }
 
@@ -94,7 +98,22 @@ func (sub *safeSubmissionState) request(logURL string, cancel context.CancelFunc
 		return false
 	}
 	sub.cancels[logURL] = cancel
+	sub.inFlight[logURL] = make(chan struct{})
 	return true
+}
+
+// processed returns a channel that is closed as soon as no submission to the
+// Log is under way: at once if there is none, otherwise when its result has
+// been processed.
+func (sub *safeSubmissionState) processed(logURL string) <-chan struct{} {
+	sub.mu.Lock()
+	defer sub.mu.Unlock()
+	if ch, ok := sub.inFlight[logURL]; ok {
+		return ch
+	}
+	done := make(chan struct{})
+	close(done)
+	return done
 }
 
 // setResult processes SCT-result. Writes it down if it is error or awaited-SCT.
@@ -103,6 +122,11 @@ func (sub *safeSubmissionState) request(logURL string, cancel context.CancelFunc
 func (sub *safeSubmissionState) setResult(logURL string, sct *ct.SignedCertificateTimestamp, err error) {
 	sub.mu.Lock()
 	defer sub.mu.Unlock()
+	if ch, ok := sub.inFlight[logURL]; ok {
+		// Closed under the lock: waiters observe the updated group needs.
+		defer close(ch)
+		delete(sub.inFlight, logURL)
+	}
 	if sct == nil {
 		sub.results[logURL] = &submissionResult{sct: sct, err: err}
 		return
@@ -221,6 +245,13 @@ func groupRace(ctx context.Context, chain []ct.ASN1Cert, asPreChain bool,
 				return
 			}
 			if firstRequested := state.request(logURL, cancel); !firstRequested {
+				// The Log may be in the middle of a submission started by another
+				// group's race. Its result counts for this group too, so this
+				// group must not be considered processed before it is known.
+				select {
+				case <-subCtx.Done():
+				case <-state.processed(logURL):
+				}
 				return
 			}
 			sct, err := submitter.SubmitToLog(subCtx, logURL, chain, asPreChain)
